@@ -125,7 +125,7 @@ def draw_response(rng, custom_msg=False, allow_custom=True, max_msgs=3):
         # the same attribute several times in a row (one per recipient, say): a response is a list, not a set
         j = rng.randrange(len(attrs))
         attrs[j:j + 1] = [dict(attrs[j]) for _ in range(rng.choice([2, 3]))]
-    events = [{"type": rng.choice(["ev", "transfer", "x"]) + str(i),
+    events = [{"type": rng.choice(["ev", "transfer", "x", "wasm-transfer", "wasm-", "wasm", "WASM-x"]) + rng.choice([str(i), str(i), ""]),
                "attributes": [{"key": "ek" + str(j), "value": str(rng.randrange(100))} for j in range(rng.choice([0, 1, 2]))]}
               for i in range(rng.choice([0, 1, 2]))]
     if events and rng.random() < 0.2:
